@@ -13,6 +13,7 @@ expected records are that structure.
 from .. import subtable
 from fractions import Fraction
 import io
+import json
 import math
 import os
 import shutil
@@ -683,6 +684,91 @@ def _check_fasta(ctx, case, root, E, fa):
             pass
 
 
+# ----------------------------------------------------------------------
+# large FASTA texts whose header lines start exactly at (or next to) multiples of the block sizes that buffered
+# readers use: a reader that works block-wise must still find every header
+BIG_BLOCKS = [512, 4096, 8192, 65536, 131072, 1 << 20]
+
+
+def render_big(case):
+    """-> (text, [(header, sequence)]); header i starts at character offset case['starts'][i]*block + off."""
+    B, off, width, alpha = case["block"], case["off"], case["width"], ALPHABET[case["type"]].replace("*", "").replace(" ", "")
+    alpha = "".join(ch for ch in alpha if ch.isalpha())
+    parts, want, cur = [], [], 0
+    starts = [0] + [k * B + off for k in case["starts"]]
+    for i, at in enumerate(starts):
+        assert at == cur, (at, cur)
+        header = ">rec%d block=%d" % (i, B)
+        parts.append(header + "\n")
+        cur += len(header) + 1
+        end = starts[i + 1] if i + 1 < len(starts) else cur + 3 * width + 7
+        seq = []
+        k = 0
+        while cur < end:
+            room = end - cur
+            n = width if room > 2 * width + 2 else (room - 1 if room - 1 <= width else room // 2 - 1)
+            n = max(n, 0)
+            line = "".join(alpha[(k + j) % len(alpha)] for j in range(n))
+            k += 7
+            seq.append(line)
+            parts.append(line + "\n")
+            cur += n + 1
+        want.append((header, "".join(seq)))
+    return "".join(parts), want
+
+
+def check_big_fasta(ctx, case):
+    E = env()
+    fa = E["fasta"]
+    text, want = render_big(case)
+    label = "FASTA text of %d characters, %d records, headers at multiples of %d%+d" % (
+        len(text), len(want), case["block"], case["off"])
+    ctx.case(("bigfasta", json.dumps(case, sort_keys=True)), nontrivial=True,
+             sample=dict(case, characters=len(text)), cls=["bigfasta:block:%d" % case["block"], "bigfasta:off:%+d" % case["off"]])
+    root = tempfile.mkdtemp(prefix="c18-big-")
+    path = os.path.join(root, "big" + case["ext"])
+    try:
+        with open(path, "wb") as fh:
+            fh.write(text.encode("ascii"))
+        for route in ("file", "StringIO", "lines"):
+            if route == "file":
+                with open(path, "rt") as fh:
+                    got = list(fa.read_fasta(fh))
+            elif route == "StringIO":
+                got = list(fa.read_fasta(io.StringIO(text)))
+            else:
+                got = list(fa.read_fasta(iter(text.splitlines(True))))
+            if len(got) != len(want):
+                raise Violation("c18:fasta:record-count", "read_fasta(%s) of a %s yields %d records, expected %d: %r"
+                                % (route, label, len(got), len(want), [g[0][:30] for g in got][:6]), case)
+            for k, ((gn, gs), (wn, ws)) in enumerate(zip(got, want)):
+                if gn not in (wn, wn[1:]):
+                    raise Violation("c18:fasta:name", "read_fasta(%s) of a %s: record %d is named %r, expected %r"
+                                    % (route, label, k, gn[:60], wn), case)
+                if gs.replace(" ", "") != ws:
+                    raise Violation("c18:fasta:sequence", "read_fasta(%s) of a %s: record %d has %d residues, expected %d"
+                                    % (route, label, k, len(gs), len(ws)), case)
+    finally:
+        shutil.rmtree(root, ignore_errors=True)
+
+
+def big_cases(tier):
+    out = []
+    for B in BIG_BLOCKS:
+        for starts in ([1, 2], [2, 3, 5]) if (B < (1 << 20) or tier != "quick") else ([1, 2],):
+            for off in (0, 1, -1):
+                out.append({"kind": "bigfasta", "block": B, "starts": starts, "off": off, "width": 60 if off else 70,
+                            "type": "aa" if B % 3 else "dna", "ext": ".faa" if B % 3 else ".fna"})
+    return out
+
+
+def task_big_fasta(ctx, part, parts):
+    limit_memory()
+    for i, case in enumerate(big_cases(ctx.tier)):
+        if i % parts == part:
+            ctx.check(check_big_fasta, case)
+
+
 def task_fasta(ctx, n):
     limit_memory()
     E = env()
@@ -698,6 +784,11 @@ def task_fasta(ctx, n):
 
 # ----------------------------------------------------------------------
 def tasks(tier):
+    from .. import depth
+    return _tasks(tier) + [("little-stack", depth.task, dict(prop=PROPERTY))]
+
+
+def _tasks(tier):
     if tier == "quick":
         return [("codes", task_codes, {}),
                 ("sequences-a", task_sequences, dict(n=250)),
@@ -707,12 +798,15 @@ def tasks(tier):
                 ("sequences-e", task_sequences, dict(n=250)),
                 ("sequences-f", task_sequences, dict(n=250)),
                 ("fasta-a", task_fasta, dict(n=200)),
-                ("fasta-b", task_fasta, dict(n=200))]
+                ("fasta-b", task_fasta, dict(n=200)),
+                ("big-fasta-0", task_big_fasta, dict(part=0, parts=2)),
+                ("big-fasta-1", task_big_fasta, dict(part=1, parts=2))]
     out = [("codes", task_codes, {})]
     for k in range(10):
         out.append(("sequences-%d" % k, task_sequences, dict(n=7000)))
     for k in range(5):
         out.append(("fasta-%d" % k, task_fasta, dict(n=6000)))
+    out += [("big-fasta-%d" % k, task_big_fasta, dict(part=k, parts=3)) for k in range(3)]
     # coverage-guided tier (pbt/fuzz.py): libFuzzer drives the strategies and oracles of these tasks
     from .. import fuzz
     fuzz.extend(out, PROPERTY, ["sequences-0"])
@@ -720,6 +814,11 @@ def tasks(tier):
 
 
 def replay(ctx, case):
+    if isinstance(case, dict) and case.get("kind") == "little-stack":
+        from .. import depth
+        return depth.check(ctx, case)
+    if case.get("kind") == "bigfasta":
+        return check_big_fasta(ctx, case)
     k = case["kind"]
     if k == "sequence":
         check_sequence(ctx, case)
